@@ -340,6 +340,17 @@ func (g *g3) cond() ref.Tok {
 }
 
 var c03Pinned = []string{
+	// forall hands its elements to the body as operands, whatever they are:
+	// operator objects and executable names are pushed, not run
+	"[ /add load /sub load /mul load ] { 7 3 3 -1 roll exec } forall",
+	"<< /k /add load >> { exch pop 5 6 3 -1 roll exec } forall",
+	"[ /add load ] { } forall",
+	"[ /pop load /exch load ] { type } forall",
+	"/q { add sub } def [ /q load 0 get /q load 1 get ] { } forall",
+	"/q { nosuchname } def [ /q load 0 get ] { pop 5 } forall",
+	"<< /k /exit load >> { pop pop } forall 9",
+	"[ /stop load ] { pop 1 } forall 2",
+	"1 2 [ /add load ] { pop } forall",
 	"{ {1 2} } exec",
 	"{ 7 {1 2} } exec",
 	"{ {1 2} 7 } exec",
